@@ -323,6 +323,19 @@ class ConcRunner {
       else if (n == "flush") ldb_test_compact_memtable(sh.db);
       else if (n == "crange") ldb_test_compact_range(sh.db, op.args.size() ? atoi(op.args[0].c_str()) : 0, nullptr, nullptr);
       else if (n == "quiesce") sched_quiesce();
+      else if (n == "reopen") {
+        // close and open again, possibly with other options (e.g. a smaller write buffer, so that recovery of one large log
+        // leaves many level-0 tables behind and the first writers meet the level-0 stop condition at once)
+        ldb_close(sh.db);
+        sh.db = nullptr;
+        sched_quiesce();
+        cfg.apply(op);
+        opts.clear();
+        opts.build(cfg);
+        rc = ldb_open(dir.c_str(), &opts.opt, &sh.db);
+        if (rc != LDB_OK) VF_FAIL("C08", "setup reopen failed rc=%d", rc);
+        rep->count("class.setup_reopen");
+      }
     }
     // ---- concurrent phase
     std::map<int, ThreadArg> targs;
